@@ -215,12 +215,12 @@ func check(args []string) int {
 			violation(p, " no-failing-input-found")
 			continue
 		}
+		counts[r.tr.Name] = lockCount(r.tr.Obls, *prop)
 		for _, or := range r.rs {
 			if !oblHasProp(or.Obl, *prop) {
 				continue
 			}
 			total++
-			counts[r.tr.Name]++
 			solverTime += or.Time
 			if or.OK() {
 				discharged++
@@ -433,19 +433,43 @@ func lockCmd(args []string) int {
 			}
 			// post/lemma/pre obligations are stable; safety obligations depend on the code shape: lock
 			// only the contract-derived count
-			m := 0
-			for _, o := range tr.Obls {
-				if oblHasProp(o, p) && (o.Kind == "post" || o.Kind == "lemma" || o.Kind == "cover") {
-					m++
-				}
-			}
-			if m == 0 && n > 0 {
-				m = 1
-			}
-			lock[p][tr.Name] = m
+			_ = n
+			lock[p][tr.Name] = lockCount(tr.Obls, p)
 		}
 	}
 	data, _ := json.MarshalIndent(lock, "", " ")
 	os.WriteFile(filepath.Join(*verif, "obligations.lock.json"), append(data, '\n'), 0o644)
 	return 0
+}
+
+// lockCount is the number of contract-derived proof goals of a target for a property:
+// distinct postcondition clauses (however many case or return splits prove each), lemmas
+// and covers. Safety obligations depend on the code shape and are not counted.
+func lockCount(obls []*vc.Obligation, p string) int {
+	seen := map[string]bool{}
+	n := 0
+	any := false
+	for _, o := range obls {
+		if !oblHasProp(o, p) {
+			continue
+		}
+		any = true
+		switch o.Kind {
+		case "post":
+			g := o.Group
+			if g == "" {
+				g = o.Name
+			}
+			if !seen[g] {
+				seen[g] = true
+				n++
+			}
+		case "lemma", "cover":
+			n++
+		}
+	}
+	if n == 0 && any {
+		n = 1
+	}
+	return n
 }
